@@ -837,6 +837,21 @@ func c13corpus() []struct {
 			ll := link(w, w.root, "linklink", tl)
 			return [][]*c13node{{tl}, {tf}, {td}, {ff}, {tl, t, tf, big}, {ll, sub}}
 		}},
+		{"sort-order-below-one-path", func(w *c13world) [][]*c13node {
+			// a directory with entries next to siblings whose names extend it by a byte below '/':
+			// the walk order of ONE shared tree is then not the byte order of the full paths
+			t := dir(w, w.root, "share")
+			docs := dir(w, t, "docs")
+			file(w, docs, "a.txt", 3)
+			file(w, dir(w, docs, "sub"), "b", 1)
+			file(w, t, "docs-old", 2)
+			file(w, t, "docs.txt", 4)
+			file(w, t, "docs b", 5)
+			v1 := dir(w, t, "v1")
+			file(w, v1, "x", 1)
+			file(w, dir(w, t, "v1.0"), "y", 1)
+			return [][]*c13node{{t}, {docs}, {t, v1}}
+		}},
 		{"empty-and-single", func(w *c13world) [][]*c13node {
 			e := dir(w, w.root, "empty")
 			f := file(w, w.root, "single", 0)
